@@ -734,12 +734,22 @@ def scripted_histories(r):
     before (A, B, A), re-written after a removal, moved between algorithms and back, all with
     identical (default) options so that the new record differs from an old one in its time only."""
     A, B = b"value A " + r.randbytes(4), b"value B"
+    A2 = b"VALUE a " + A[8:]           # another value of exactly A's length
     k, k2 = "кey".encode(), b"k2"
     scripts = [
         [("w", k, "sha256", A), ("w", k, "sha256", B), ("w", k, "sha256", A)],
         [("w", k, "sha512", A), ("rm", k), ("w", k, "sha512", A)],
         [("w", k, "sha1", A), ("w", k, "sha256", A), ("w", k, "sha1", A), ("rh", "sha256", A)],
         [("w", k, "sha256", A), ("w", k2, "sha256", A), ("w", k, "sha256", B), ("w", k2, "sha256", B), ("w", k, "sha256", A)],
+        # a bucket / a content directory that DISAPPEARS and comes back (full removal, clear) with a record of exactly the
+        # same length, or with the very same bytes: whatever a process remembers about files it has seen (parsed buckets,
+        # directories it created, addresses it published) must not outlive them
+        [("w", k, "sha256", A), ("rf", k), ("w", k, "sha256", A2)],
+        [("w", k, "sha256", A), ("cl",), ("w", k, "sha256", A2)],
+        [("w", k, "sha256", A), ("cl",), ("w", k, "sha256", A)],
+        [("w", k, "sha256", A), ("rf", k), ("w", k, "sha256", A)],
+        [("w", k, "sha256", A), ("rm", k), ("w", k, "sha256", A)],
+        [("w", k, "sha512", A), ("w", k2, "sha512", A), ("rf", k), ("w", k, "sha512", A), ("cl",), ("w", k2, "sha512", A2), ("w", k, "sha512", A)],
     ]
     progs = []
     for si, sc in enumerate(scripts):
@@ -751,12 +761,18 @@ def scripted_histories(r):
                     ops.append(w_oneshot(fl, st[2], st[1], st[3])); steps.append((len(ops) - 1, "write", st[1], st[2], st[3]))
                 elif st[0] == "rm":
                     ops.append(f"remove {fl} c0 {hx(st[1])}"); steps.append((len(ops) - 1, "remove", st[1], None, None))
+                elif st[0] == "rf":
+                    ops.append(f"remove_fully {fl} c0 {hx(st[1])}"); steps.append((len(ops) - 1, "remove_fully", st[1], None, None))
+                elif st[0] == "cl":
+                    ops.append(f"clear {fl} c0"); steps.append((len(ops) - 1, "clear", None, None, None))
                 else:
                     ops.append(f"remove_hash {fl} c0 {sri_tok(st[1], st[2])}"); steps.append((len(ops) - 1, "remove_hash", None, st[1], st[2]))
+                # every step is observed through BOTH flavours, by lookup, read and listing
                 for kk in keys:
-                    of = "a" if fl == "s" else "s"
-                    ops.append(f"metadata {of} c0 {hx(kk)}"); steps.append((len(ops) - 1, "meta", kk, None, None))
-                    ops.append(f"read {of} c0 {hx(kk)}"); steps.append((len(ops) - 1, "read", kk, None, None))
+                    for of in "sa":
+                        ops.append(f"metadata {of} c0 {hx(kk)}"); steps.append((len(ops) - 1, "meta", kk, None, None))
+                        ops.append(f"read {of} c0 {hx(kk)}"); steps.append((len(ops) - 1, "read", kk, None, None))
+                ops.append("list c0"); steps.append((len(ops) - 1, "list", None, None, None))
             ops.append("list c0"); steps.append((len(ops) - 1, "list", None, None, None))
             progs.append(Program(f"script{si}{fl}", ops, tags={"steps": steps, "keys": keys, "variety": ("script", si, fl)}))
     return progs
@@ -1152,6 +1168,127 @@ def mon_cancel(rr):
     if norm(rr.impl[-1]) != "ok":
         out.append(Failure("tmp_left", len(rr.impl) - 1, "temp file left behind by a writer with a cancelled write", sig={"op": "wwrite_cancel"}))
     return out
+
+
+def gen_attach_rewrite_programs(r):
+    """One key written several times with everything a writer can attach, the differences between consecutive
+    writes being as small as possible - only the raw metadata, only the JSON metadata, only the time, only the bytes
+    (same length) - with tombstones, full removals and clears in between, so that a re-created bucket has exactly
+    the length of the one that was there before.  After every step lookups (both flavours) and the listing must
+    show the attachments of the LAST write (or nothing)."""
+    progs = []
+    k = "cl\u00e9".encode()
+    A, B = b"same length A", b"same length B"
+    M1, M2 = {"etag": "aaaa", "n": 1}, {"etag": "bbbb", "n": 2}
+    R1, R2 = b"raw-headers-1", b"raw-headers-2"
+    scripts = [
+        [("w", A, 1000, M1, R1), ("w", A, 1000, M1, R2)],                       # only the raw metadata differs
+        [("w", A, 1000, M1, R1), ("w", A, 1000, M2, R1)],                       # only the JSON metadata
+        [("w", A, 1000, M1, R1), ("w", A, 2000, M1, R1)],                       # only the time
+        [("w", A, 1000, M1, R1), ("w", B, 1000, M1, R1)],                       # only the bytes
+        [("w", A, 1000, M1, R1), ("rf",), ("w", B, 2000, M2, R2)],              # bucket re-created, same length
+        [("w", A, 1000, M1, R1), ("cl",), ("w", B, 2000, M2, R2)],
+        [("w", A, 1000, M1, R1), ("rm",), ("w", A, 1000, M1, R1)],              # identical write after a tombstone
+        [("w", A, 1000, M1, R1), ("w", B, 2000, M2, R2), ("rf",), ("w", A, 1000, M1, R1), ("cl",), ("w", B, 2000, M2, R2)],
+        [("w", A, 1000, None, None), ("w", A, 1000, None, R1), ("w", A, 1000, M1, None)],
+    ]
+    for si, sc in enumerate(scripts):
+        for fl in "sa":
+            ids = G.Ids()
+            ops, steps = [], []
+            cur = None
+            for st in sc:
+                if st[0] == "w":
+                    _, d, tm, md, raw = st
+                    _, w = w_stream(ids, fl, k, d, [d], algo="sha256", time=tm, meta=(md if md is not None else NOMETA), raw=raw)
+                    ops += w
+                    cur = {"sri": L.sri_of("sha256", d), "time": tm, "size": len(d), "json": md, "raw": raw}
+                else:
+                    ops.append({"rf": f"remove_fully {fl} c0 {hx(k)}", "cl": f"clear {fl} c0", "rm": f"remove {fl} c0 {hx(k)}"}[st[0]])
+                    cur = None
+                at = len(ops) - 1
+                obs = []
+                for of in "sa":
+                    ops.append(f"metadata {of} c0 {hx(k)}"); obs.append(len(ops) - 1)
+                ops.append("list c0"); obs.append(len(ops) - 1)
+                steps.append((at, dict(cur) if cur else None, obs))
+            progs.append(Program(f"attach{si}{fl}", ops, tags={"attach": steps, "key": k, "variety": ("attach", si, fl)}))
+    return progs
+
+
+def mon_attach(rr):
+    out = []
+    k = rr.prog.tags["key"]
+    for at, cur, obs in rr.prog.tags["attach"]:
+        if obs[-1] >= len(rr.impl):
+            break
+        res = toks(rr.impl[at])
+        if res[0] != "ok":
+            out.append(Failure("write_failed", at, f"{rr.prog.ops[at][:40]} -> {' '.join(res[:3])}", sig={"op": rr.prog.ops[at].split(' ')[0]}))
+            continue
+        def ok_meta(m):
+            return (m not in (None, "ERR") and m["sri"] == cur["sri"] and m["time"] == cur["time"] and m["size"] == cur["size"]
+                    and m["json"] == cur["json"] and m["raw"] == cur["raw"])
+        for j in obs[:-1]:
+            m = meta_of_line(rr.impl[j])
+            if cur is None:
+                if m is not None:
+                    out.append(Failure("resurrected", j, f"lookup after a removal -> {norm(rr.impl[j])[:60]}", sig={"op": "metadata"}))
+            elif not ok_meta(m):
+                out.append(Failure("stale_or_missing", j, "lookup does not return what the LAST write attached "
+                                   f"({norm(rr.impl[j])[:90]})", sig={"op": "metadata", "api": rr.prog.ops[j].split(' ')[1]}))
+        items = list_items(rr.impl[obs[-1]])
+        metas = [parse_meta(x) for x in (items or []) if x.startswith("meta ")]
+        mine = [m for m in metas if m["key"] == k]
+        if cur is None:
+            if mine:
+                out.append(Failure("resurrected", obs[-1], "listing shows a removed key", sig={"op": "list"}))
+        elif len(mine) != 1 or not ok_meta(mine[0]):
+            out.append(Failure("stale_or_missing", obs[-1], "listing does not show what the LAST write attached", sig={"op": "list"}))
+    return out
+
+
+def gen_block_boundary_programs(r):
+    """Buckets (written by the reference encoder) in which a read-buffer boundary - 4 KiB ... 64 KiB - falls INSIDE a
+    multi-byte character of the record that decides the lookup (the newest record of the key: a live entry, or a
+    tombstone over an older live entry).  A reader that decodes UTF-8 block by block loses exactly that record."""
+    progs = []
+    key = "кл\u00e9-\u20ac".encode()
+    ks = key.decode()
+    for B in (4096, 8192, 16384, 32768, 65536):
+        for last_kind in ("live", "tomb"):
+            frames, tm = [], 1000
+            def rec(t, pad):
+                return L.frame(L.record_json(ks, L.sri_of("sha256", b"v%d" % t), t, 2, {"pad": pad, "e": "\u20ac" * 40}, None))
+            # filler records up to a little below the boundary
+            while sum(map(len, frames)) + len(rec(tm, "")) < B - 700:
+                frames.append(rec(tm, "x" * (tm % 7))); tm += 1
+            if last_kind == "live":
+                final = L.frame(L.record_json(ks, L.sri_of("sha256", b"final"), 999999, 5, {"e": "\u20ac" * 120}, None))
+            else:
+                final = L.frame(L.record_json(ks + "", None, 999999, 0, {"e": "\u20ac" * 120} if False else None, None))
+            # the boundary goes inside the euro sign of the key (the one multi-byte text a tombstone has, too)
+            p = final.index("\u20ac".encode())
+            want_prefix = B - p - 1                      # the boundary then lies between byte 1 and byte 2 of a 3-byte character
+            have = sum(map(len, frames))
+            base = len(rec(tm, ""))
+            pad = want_prefix - have - base
+            if pad < 0:
+                frames.pop(); have = sum(map(len, frames)); pad = want_prefix - have - base
+            frames.append(rec(tm, "y" * pad)); tm += 1
+            bucket = b"".join(frames) + final
+            assert len(b"".join(frames)) == want_prefix, (len(b"".join(frames)), want_prefix)
+            assert bucket[B - 1] == 0xE2 and bucket[B] == 0x82, (B, bucket[B - 1:B + 2])
+            bp = bucket_path(key)
+            ops = [f"put {bp} {hx(bucket)}"]
+            look = []
+            for fl in "sa":
+                ops.append(f"metadata {fl} c0 {hx(key)}"); look.append(len(ops) - 1)
+            ops.append("list c0"); look.append(len(ops) - 1)
+            progs.append(Program(f"block{B}{last_kind}", ops, tags={"bucket": bucket, "key": ks, "look": look, "ins": len(ops),
+                                                                    "damage": f"none (boundary {B} inside a character)",
+                                                                    "variety": ("block", B, last_kind)}))
+    return progs
 
 
 def gen_abandon_programs(r, n):
